@@ -35,8 +35,9 @@ def _cmp(a: Dict[str, Any], ia: int, b: Dict[str, Any], ib: int, nat: int, norb:
         d = float(np.max(np.abs(va - vb))) if va.size else 0.0
         if not d <= tol * max(1.0, float(np.max(np.abs(va))) if va.size else 1.0):
             bad.append(f"{k}: |alone - in batch| = {d:.3e}")
-    if a.get("e_mo") is not None and b.get("e_mo") is not None and a["e_mo"].ndim == 2:
-        d = float(np.max(np.abs(a["e_mo"][ia][:norb] - b["e_mo"][ib][:norb])))
+    if a.get("e_mo") is not None and b.get("e_mo") is not None:
+        # RHF: (nmol, norb); UHF: (nmol, 2, norb) - compare the real orbitals of both spin channels
+        d = float(np.max(np.abs(a["e_mo"][ia][..., :norb] - b["e_mo"][ib][..., :norb])))
         if d > tol * 50:
             bad.append(f"e_mo: {d:.3e}")
     if a.get("cis_energies") is not None and b.get("cis_energies") is not None:
@@ -154,6 +155,10 @@ def gen_cases(ctx: Ctx):
         for tgt in range(len(names)):
             cases.append(("alone_vs_batch", {"names": names, "target": tgt, "method": methods[i % 4], "converger": [[1], [0, 0.2], [2]][i % 3], "tol": 1e-9 if i % 3 != 2 else 1e-7,
                                              "eps": 1e-10}))
+    # unrestricted runs in mixed-size batches, the smaller (padded) molecule in either half of the batch; closed-shell singlets and radicals
+    ucases = [(["ch2o", "h2o"], 1), (["h2o", "ch2o"], 0), (["ch4", "oh"], 1), (["c2h4", "no", "h2o"], 2), (["c2h4", "no", "h2o"], 1)]
+    for i, (names, tgt) in enumerate(ucases[: (5 if ctx.thorough else 3)]):
+        cases.append(("alone_vs_batch", {"names": names, "target": tgt, "method": methods[i % 3], "converger": [[1], [0, 0.3]][i % 2], "uhf": True, "tol": 1e-8, "eps": 1e-10}))
     # excited states: homogeneous batch (same species, different coords handled via names repeated) and mixed
     cases.append(("alone_vs_batch", {"names": ["ch2o", "ch2o"], "target": 1, "method": "AM1", "converger": [1], "excited": {"n_states": 3, "method": "cis"}, "tol": 1e-8}))
     cases.append(("alone_vs_batch", {"names": ["h2o", "ch2o", "nh3"], "target": 1, "method": "AM1", "converger": [1], "excited": {"n_states": 2, "method": "cis"}, "tol": 1e-7}))
